@@ -40,7 +40,7 @@ CHECKS = {
     },
     "C07": {
         "level": "exploration",
-        "rule": "rapid-generated histories (1-40 operations: block / filter batch appends of any size incl. empty, single and multi-header rollbacks incl. to and past genesis, block-manager style two-store rollbacks, re-append of rolled-back headers, reopen - plain or with a filter-header state assertion that holds / lies above the tip / fails (the store must then come up reset to its genesis entry) -, appends whose index commit is made to fail) applied to the real stores and to two in-memory lists; after every operation every read method of both stores is compared with the lists. Non-trivial = the history contains a rollback followed by an append, or a reopen after a mutation, or an injected write fault; distinct = distinct case JSON Unit store-big: the same oracle on histories with thousands of headers (batch appends and rollbacks of 1999 / 2000 / 2001 / 2048+ headers in one call, as the header import's compensation does): size thresholds inside the stores only show at that scale.",
+        "rule": "rapid-generated histories (1-40 operations: block / filter batch appends of any size incl. empty, single and multi-header rollbacks incl. to and past genesis, block-manager style two-store rollbacks, re-append of rolled-back headers, reopen - plain or with a filter-header state assertion that holds / lies above the tip / fails (the store must then come up reset to its genesis entry) -, appends whose index commit is made to fail, appends during which every Sync of the flat file fails - whether the store runs into it or not, what it reports must be true) applied to the real stores and to two in-memory lists; after every operation every read method of both stores is compared with the lists. Non-trivial = the history contains a rollback followed by an append, or a reopen after a mutation, or an injected write fault; distinct = distinct case JSON Unit store-big: the same oracle on histories with thousands of headers (batch appends and rollbacks of 1999 / 2000 / 2001 / 2048+ headers in one call, as the header import's compensation does): size thresholds inside the stores only show at that scale.",
         "assumptions": [
             "appends respect the documented precondition (heights continue the tip; filter headers never beyond the block tip); block headers below the filter tip are only rolled back after the filter headers (as the block manager does)",
             "database write errors are injected by a walletdb wrapper that rolls the transaction back; file-level write errors are not injected by this unit",
